@@ -68,7 +68,30 @@ let cut c s =
   | Some i -> String.sub s 0 i, String.sub s (i + 1) (String.length s - i - 1)
 
 let fuel = nat_of_int 64
-let ifuel = nat_of_int 20000
+let ifuel = nat_of_int 4000
+
+(* printing of cases as Coq terms: a sub-sample is re-evaluated by vm_compute inside Coq *)
+let coq_out : out_channel option ref = ref None
+let coq_every = ref 0
+let coq_count = ref 0
+let lineno = ref 0
+let c_n n = Printf.sprintf "%d%%N" (int_of_n n)
+let c_list f l = "[" ^ String.concat "; " (List.map f l) ^ "]"
+let c_pair f g (a, b) = "(" ^ f a ^ ", " ^ g b ^ ")"
+let c_bool b = if b then "true" else "false"
+let c_path p = c_list c_n p
+let c_ver (((a, b), c), pre) = Printf.sprintf "(%s, %s, %s, %s)" (c_n a) (c_n b) (c_n c) (c_bool pre)
+let c_node n = c_pair c_path c_ver n
+let c_dep d = c_pair c_node c_bool d
+let c_import (p, m) = "(" ^ c_path p ^ ", " ^ (match m with None -> "None" | Some m -> "Some " ^ c_n m) ^ ")"
+let c_tres = function
+  | TOk ds -> "TOk " ^ c_list c_dep ds
+  | TErr (m, a, f) -> Printf.sprintf "TErr %s %s %s" (c_bool m) (c_bool a) (c_bool f)
+  | TMulti -> "TMulti" | TFuel -> "TFuel" | TIFuel -> "TIFuel"
+let c_cres = function
+  | CAccept -> "CAccept" | CReject -> "CReject"
+  | CErr (m, a, f) -> Printf.sprintf "CErr %s %s %s" (c_bool m) (c_bool a) (c_bool f)
+  | CMulti -> "CMulti" | CFuel -> "CFuel"
 
 let bits m a f = (if m then "m" else "-") ^ (if a then "a" else "-") ^ (if f then "f" else "-")
 let string_of_tres = function
@@ -103,6 +126,15 @@ let handle line =
     let u = c17_mkU mods deps pkgs imps std in
     let mm = c17_mkM (fst main) (snd main) mdirs mimps in
     let t = c17_tidy fuel ifuel u mm deps0 in
+    (match !coq_out with
+     | Some oc when !coq_every > 0 && !lineno mod !coq_every = 0 ->
+       Printf.fprintf oc "Example xc_%d :\n  let u := mkU %s\n    %s\n    %s\n    %s\n    %s in\n  let m := mkM %s %s %s\n    %s in\n  let ds := %s in\n  (tidy_model 64 4000 u m ds, check_model 4000 u m ds) = (%s, %s).\nProof. vm_compute. reflexivity. Qed.\n\n"
+         !lineno (c_list c_node mods) (c_list (c_pair c_node c_dep) deps) (c_list (c_pair c_node c_path) pkgs)
+         (c_list (c_pair (c_pair c_node c_path) c_import) imps) (c_list c_n std)
+         (c_path (fst main)) (c_n (snd main)) (c_list c_path mdirs) (c_list c_import mimps) (c_list c_dep deps0)
+         (c_tres t) (c_cres (c17_check ifuel u mm deps0));
+       incr coq_count
+     | _ -> ());
     let tt, ck = match t with
       | TOk f -> string_of_tres (c17_tidy fuel ifuel u mm f), string_of_cres (c17_check ifuel u mm f)
       | _ -> "-", "-" in
@@ -110,12 +142,20 @@ let handle line =
   | _ -> "BADCASE"
 
 let () =
+  (* modelrun [--coq FILE EVERY] *)
+  (match Array.to_list Sys.argv with
+   | _ :: "--coq" :: file :: every :: _ ->
+     let oc = open_out file in
+     output_string oc "From Verif Require Import Tidy.Model.\nFrom Coq Require Import List NArith.\nImport ListNotations.\n\n";
+     coq_out := Some oc; coq_every := int_of_string every
+   | _ -> ());
   try
     while true do
       let line = input_line stdin in
+      incr lineno;
       (if String.length line > 1 && line.[0] = 'U' then
          print_string (try handle line with Failure m -> "BADCASE " ^ m)
        else print_string "-");
       print_newline ()
     done
-  with End_of_file -> ()
+  with End_of_file -> (match !coq_out with Some oc -> close_out oc | None -> ())
